@@ -80,6 +80,7 @@ mut("c08-revert-selprot-rng", "C08", "pybrops/breed/prot/sel/SubsetSelectionProt
 mut("c08-hc-time-tiebreak", "C08", "pybrops/opt/algo/SteepestDescentSubsetHillClimber.py", "        gbest_soln = self.rng.choice(prob.decn_space, prob.ndecn, replace = False)", "        import time\n        gbest_soln = self.rng.choice(prob.decn_space, prob.ndecn, replace = False)\n        if int(time.time()) % 2: gbest_soln = gbest_soln[::-1].copy()", "start solution order depends on the wall clock")
 mut("c08-xconfig-cache", "C08", "pybrops/breed/prot/sel/cfg/SubsetSelectionConfiguration.py", "        outcross_shuffle(out, rng = self.rng)", "        outcross_shuffle(out, rng = self.rng if len(out) != 3 else None)", "three-cross configurations shuffled with the global stream")
 mut("c08-revert-embv-loopvar", "C08", "pybrops/breed/prot/sel/prob/ExpectedMaximumBreedingValueSelectionProblem.py", "            for _ in range(nrep):\n                # create progeny", "            for i in range(nrep):\n                # create progeny", "reverts fix 8dbcad0e (EMBV rows left uninitialised)")
+mut("c08-revert-setga-sample", "C08", "pybrops/opt/algo/UnconstrainedSetGeneticAlgorithm.py", "        return [individuals[i] for i in self.rng.choice(len(individuals), n, replace = False)]", "        return random.sample(individuals, n)", "reverts fix ced174b2 (legacy set GA samples with Python's global stream)")
 
 # ---------------------------------------------------------------- C16
 H5 = "pybrops/core/util/h5py.py"
